@@ -152,10 +152,22 @@ func drawC20(rt *rapid.T) C20Scenario {
 	var script []step
 	// motifs: multi-commit situations that uniform choice of operations almost never lines up
 	ks0 := sortedKeys(head)
-	switch g.pick("motif", 8) {
+	nmotif := 8
+	if sc.Mixed {
+		nmotif = 4 // the parser modes only matter once a file changes directory
+	}
+	switch g.pick("motif", nmotif) {
 	case 0: // a path is freed by a deletion and taken over by a renamed file that was edited before
 		y := ks0[g.pick("my", len(ks0))]
 		x := ks0[g.pick("mx", len(ks0))]
+		if sc.Mixed && g.pick("mcross", 2) == 0 {
+			// the newcomer arrives from the directory with the other parser mode
+			for _, cand := range ks0 {
+				if relaxedPath(cand) != relaxedPath(x) {
+					y = cand
+				}
+			}
+		}
 		if x != y {
 			script = []step{{"add", y, ""}, {"delete", x, ""}, {"rename", y, x}, {"remove", x, ""}}
 			if g.pick("mskip", 3) == 0 {
